@@ -21,6 +21,19 @@ POSTCONDITION Accepted
 CONN_QUICK = [("tls", 2, 2, 1, 4, "after"), ("gm", 2, 1, 1, 4, "after"), ("tls", 3, 2, 2, 5, "during"), ("gm", 3, 1, 2, 5, "during"), ("tls", 1, 1, 1, 3, "during")]
 CONN_THOROUGH = CONN_QUICK + [("tls", 4, 2, 2, 8, "after"), ("gm", 4, 1, 2, 8, "after"), ("tls", 4, 2, 3, 8, "during"), ("gm", 4, 1, 3, 8, "during")] * 3
 
+# (mode, clients, handshakes per client, rotations)
+# several handshakes of every client fall between two rotations: the first of them offers a ticket under the OLD key, and
+# only an installation that keeps the old key in force at every instant lets it resume
+CFG_QUICK = [("tls", 5, 24, 7), ("gm", 5, 24, 7), ("tls", 4, 20, 4), ("gm", 6, 12, 3)]
+CFG_THOROUGH = CFG_QUICK + [("tls", 7, 16, 4), ("gm", 7, 16, 4), ("tls", 3, 60, 19), ("gm", 3, 60, 19), ("tls", 6, 30, 9), ("gm", 6, 30, 9)]
+CFGT_CFG = """SPECIFICATION TraceSpec
+CONSTANTS
+  TraceFile = "%s"
+CONSTRAINT HighWater
+POSTCONDITION Accepted
+VIEW View
+"""
+
 LEVEL = "model_checking"
 
 DRIVERS_QUICK = [("pkg", 8, 6), ("sm4obj", 8, 300), ("hashctor", 8, 100), ("pool", 8, 20), ("pkcs7", 8, 10), ("firstuse", 32, 1), ("setiv", 4, 100), ("lru", 8, 300), ("config", 6, 6)]
@@ -133,7 +146,56 @@ def run(ctx):
                 {"history": descr[i], "event_index": lineno, "event": ev, "trace": traces[i]})
     acc, nev = validate_traces(ctx, "ConcConnTrace", CONN_CFG, traces, describe, tag="conn", timeout=3000)
     ctx.log("connection histories: %d of %d accepted (%d events)" % (acc, len(traces), nev))
-    ctx.cov["traces"] = len(traces)
+    # 4. one Config, handshakes with tickets while the ticket keys rotate: ConcConfig
+    r = ctx.tlc("ConcConfigMC", "ConcConfigMC.cfg", workers=8, timeout=1500)
+    rd = ctx.tlc("ConcConfigMC", "ConcConfigMC_dev.cfg", workers=4, timeout=600, expect_fail=True)
+    if rd["ok"]:
+        raise Infra("ConcConfigMC does not refute the two-step rotation (RecentTicketResumes should fail)")
+    ctx.log("ConcConfig: %d states, 5 invariants hold; the non-atomic rotation (deviation switch) is refuted" % r["distinct"])
+    ctraces, cdescr = [], []
+    plans = CFG_THOROUGH if thorough else CFG_QUICK
+    for i, (mode, workers, iters, rots) in enumerate(plans):
+        tf = os.path.join(ctx.work, "cfg_%d.ndjson" % i)
+        logp = os.path.join(ctx.work, "race_cfg_%d" % i)
+        ctx.harness(["c20-config", mode, str(workers), str(iters), str(rots), str(ctx.seed * 100 + i), tf], timeout=600, bin=hrace,
+                    env={"GORACE": "log_path=%s halt_on_error=0 exitcode=0" % logp})
+        evs = read_ndjson(tf)
+        cdescr.append("%s server Config shared by %d clients x %d handshakes during %d key rotations" % (mode, workers, iters, rots))
+        errs = [e for e in evs if e["ev"] == "error"]
+        for e in errs:
+            if "no loopback" in e["text"]:
+                raise Infra(e["text"])
+            ctx.violation("%s: %s" % (cdescr[-1], e["text"]), {"history": cdescr[-1], "error": e["text"]})
+        if not errs:
+            ctraces.append([{"ev": "reset", "op": 0, "keys": [1]}] + [e for e in evs if e["ev"] != "error"])
+        else:
+            ctraces.append([{"ev": "reset", "op": 0, "keys": [1]}])
+        for rep in race_reports(logp):
+            if not any("github.com/tjfoc/gmsm/" in t for t in rep):
+                raise Infra("data race outside the library (harness bug?): %s" % (rep,))
+            what = "data race on one Config (%s): %s" % (cdescr[-1], " <-> ".join(rep))
+            k2 = ctx.match_known({"kind": "race", "functions": list(rep)})
+            if k2:
+                ctx.known_finding(k2, what)
+            elif ("config", rep) not in seen_races:
+                seen_races[("config", rep)] = 1
+                ctx.violation(what, {"driver": "config history", "functions": list(rep)})
+
+    def cdescribe(i, lineno, ev):
+        return ("history of one %s: event %d is not explained by any order of atomic rotations and ticket open / seal instants: %s" % (cdescr[i], lineno, json.dumps(ev)[:400]),
+                {"history": cdescr[i], "event_index": lineno, "event": ev, "trace": ctraces[i]})
+    cacc, cnev = validate_traces(ctx, "ConcConfigTrace", CFGT_CFG, ctraces, cdescribe, tag="cfg", timeout=3000)
+    nres = sum(1 for t in ctraces for e in t if e.get("kind") == "hs" and e.get("resumed"))
+    nold = sum(1 for t in ctraces for e in t if e.get("kind") == "hs" and e.get("resumed") and e.get("newkey"))
+    ctx.log("Config histories: %d of %d accepted (%d events; %d resumptions, %d of them through an old key with a re-issued ticket)" % (cacc, len(ctraces), cnev, nres, nold))
+    if nres < 10:
+        raise Infra("vacuous Config histories: only %d resumptions" % nres)
+    nev += cnev
+    acc += cacc
+    traces_all = len(traces) + len(ctraces)
+    ctx.cov["config_histories"] = len(ctraces)
+    ctx.cov["config_resumptions"] = nres
+    ctx.cov["traces"] = traces_all
     ctx.cov["traces_validated_against_impl"] = acc
     ctx.sample({"schedule of two calls on one sm4 cipher object (replayed through the gates)": scheds[len(scheds) // 2]["sched"]})
     if traces:
